@@ -113,7 +113,7 @@ def judge(ctx, rows, what='case'):
         sub = [rows[i] for i in left]
         names = [k[0] for k in KFS] + ['all']
         with ThreadPoolExecutor(max_workers=6) as ex:
-            res = list(ex.map(lambda nm: _mismatches_of(ctx, f'Trace_RpcSerialize_KF_{nm}.cfg', sub, f'kf_{nm}', chunk=max(500, -(-len(sub) // 2)), par=2), names))
+            res = list(ex.map(lambda nm: _mismatches_of(ctx, f'Trace_RpcSerialize_KF_{nm}.cfg', sub, f'kf_{nm}', chunk=max(6000, -(-len(sub) // 2)), par=2), names))
         quiet = {nm: {left[k] for k in range(len(left)) if k not in m2} for nm, m2 in zip(names, res)}
         for name, fid, text in KFS:
             ok = sorted(i for i in quiet[name] if i not in explained)
